@@ -64,6 +64,9 @@ def run(repo, rep):
     rep.rule('C10.X2', 'the requestor announces its own limit before adopting the peer\'s; the acceptor echoes the limit it will '
              'itself honour, which is its configured one or less', 2)
     rep.rule('C10.X3', 'the limit in force is applied on every send (single call site of encode, see C06.S7)', 1)
+    rep.rule('C10.X5', 'the fragment width term, evaluated at the boundary values of the limit (0 = none, overhead+1 = the smallest '
+             'that can carry a payload byte, ..., 2^32-1), is at least 1 and never exceeds limit - overhead: both sides stay able '
+             'to send for every pair of announced values', 2)
     rep.rule('C10.X4', 'a limit of 0 reaching the fragmenters or the provider\'s socket read is treated as "no limit", not as a size', 3)
 
     # ---------------------------------------------------------------- X1 / X2
@@ -186,6 +189,42 @@ def run(repo, rep):
                              % (w, mp))
         rep.check(not probs, 'C10.X4', 'dimsemessages:%s:zero-limit' % fname, f.loc(),
                   'a limit of 0 yields a positive fragment width', '; '.join(sorted(set(probs))))
+        # X5: the width term at the boundary values of the limit
+        from ..arith import CannotEvaluate, eval_term
+        from .c06 import overhead as _ovh
+        k = _ovh(repo)[0] + 1
+        grid = [0, k + 1, k + 2, k + 3, 127, 128, 1024, 16384, 65535, 65536, 2 ** 31, 2 ** 32 - 1]
+        p5 = []
+        for w, conds in widths:
+            w = inline_pure_calls(w, repo, 'dimsemessages')
+            try:
+                we = ast.parse(w, mode='eval')
+            except SyntaxError:
+                raise AnalysisError('%s: fragment width %s is not an expression' % (f.loc(), w))
+            for L in grid:
+                # path conditions on the limit select which width term applies to this value
+                applicable = True
+                for cn in conds:
+                    if mp not in cn or cn[:1] not in '+-':
+                        continue
+                    try:
+                        cv = eval_term(ast.parse(cn[1:], mode='eval'), {mp: L})
+                    except (CannotEvaluate, SyntaxError):
+                        continue
+                    if bool(cv) != (cn[0] == '+'):
+                        applicable = False
+                if not applicable:
+                    continue
+                try:
+                    val = eval_term(we, {mp: L})
+                except CannotEvaluate as exc:
+                    raise AnalysisError('%s: fragment width %s cannot be evaluated (%s)' % (f.loc(), w, exc))
+                if not isinstance(val, int) or val < 1:
+                    p5.append('with a limit of %d the fragment width %s is %s: no payload byte fits, nothing can be sent' % (L, w, val))
+                elif L != 0 and val + k > L:
+                    p5.append('with a limit of %d the fragment width %s is %d: the P-DATA-TF would carry %d bytes' % (L, w, val, val + k))
+        rep.check(not p5, 'C10.X5', 'dimsemessages:%s:width-at-boundaries' % fname, f.loc(),
+                  'width >= 1 and width + %d <= limit at %d boundary values of the limit' % (k, len(grid)), '; '.join(sorted(set(p5))[:4]))
     cip = repo.cls('dulprovider', 'DULServiceProvider').find_method('_check_incoming_pdu')
     rep.analysed(cip)
     probs = []
